@@ -249,3 +249,30 @@ pub fn with_two_accepted<R>(text_a: &str, text_b: &str, f: impl for<'t> FnOnce(&
     };
     run(text_a, text_b)
 }
+
+/// Like `with_two_accepted`, also passing the reported types.
+pub fn with_two_checked<R>(
+    text_a: &str,
+    text_b: &str,
+    f: impl for<'t> FnOnce(Option<(&Term<'t>, &Term<'t>)>, Option<(&Term<'t>, &Term<'t>)>) -> R,
+) -> Result<R, String> {
+    let ta = catch(|| crate::tokenizer::tokenize(None, text_a)).map_err(|p| format!("tokenize panicked: {p}"))?;
+    let tb = catch(|| crate::tokenizer::tokenize(None, text_b)).map_err(|p| format!("tokenize panicked: {p}"))?;
+    let pa = match &ta {
+        Ok(t) => catch(|| crate::parser::parse(None, text_a, t, &[])).map_err(|p| format!("parse panicked: {p}"))?.ok(),
+        Err(_) => None,
+    };
+    let pb = match &tb {
+        Ok(t) => catch(|| crate::parser::parse(None, text_b, t, &[])).map_err(|p| format!("parse panicked: {p}"))?.ok(),
+        Err(_) => None,
+    };
+    let ea = match &pa {
+        Some(p) => catch(|| crate::type_checker::type_check(None, text_a, p, &mut vec![], &mut vec![])).map_err(|p| format!("type_check panicked: {p}"))?.ok(),
+        None => None,
+    };
+    let eb = match &pb {
+        Some(p) => catch(|| crate::type_checker::type_check(None, text_b, p, &mut vec![], &mut vec![])).map_err(|p| format!("type_check panicked: {p}"))?.ok(),
+        None => None,
+    };
+    Ok(f(ea.as_ref().map(|(e, t)| (e, t)), eb.as_ref().map(|(e, t)| (e, t))))
+}
